@@ -4,7 +4,7 @@ use crate::core::{DynScenario, Tier};
 use crate::scen;
 
 pub fn all_scenarios() -> Vec<Box<dyn DynScenario>> {
-    vec![Box::new(scen::c16::C16), Box::new(scen::c14::C14), Box::new(scen::c02::C02), Box::new(scen::c03::C03), Box::new(scen::c05::C05), Box::new(scen::c06::C06), Box::new(scen::c07::C07)]
+    vec![Box::new(scen::c16::C16), Box::new(scen::c14::C14), Box::new(scen::c02::C02), Box::new(scen::c03::C03), Box::new(scen::c05::C05), Box::new(scen::c06::C06), Box::new(scen::c07::C07), Box::new(scen::c08::C08), Box::new(scen::c09::C09)]
 }
 
 pub fn find_scenario(name: &str) -> Option<Box<dyn DynScenario>> {
@@ -107,6 +107,24 @@ pub fn property(id: &str) -> Option<PropSpec> {
             components_real: vec!["FrequentItemsSketch<i64|u64|String>: update_with_count, merge, purge/resize, estimate/lower_bound/upper_bound/maximum_error/total_weight/frequent_items, serialize/deserialize on wire and checkpoint paths"],
             components_stub: vec!["exactly-once network", "framed checkpoint store + WAL", "exact frequency map (oracle)"],
         },
+        "C08" => PropSpec {
+            id: "C08",
+            level: "exploration",
+            parts: vec![p("c08_count_min", REL, BOTH)],
+            rule: "one run = one counter type (u8..u64, i8..i64), shape (num_hashes 1..=8, num_buckets 3..=512, seed) and 2-4 nodes; a script of weighted update bursts (weights 0, small, up to max/64, always keeping every total inside the counter type), flushes between nodes (in memory or serialize() image over an exactly-once network with reorder / loss), and for unsigned types halve / decay epochs broadcast to all nodes while contributions are in flight. After every update total_weight is exact; after every merge / Check / quiescence the serialized table equals the model table built with the reference MurmurHash3 and row-seed derivation, and for every inserted item plus 8 never-inserted probes: estimate >= truth, estimate <= total, lower_bound <= estimate <= upper_bound; after an epoch every cell lies between its scaled and old value and estimate >= the correspondingly scaled truth. The confidence clause is counted per batch (trials / exceedances per num_hashes). Non-trivial = a wire delivery happened; distinct = distinct (type, num_hashes, fault kinds) keys.",
+            assumptions: vec!["negative weights and totals beyond the counter type are outside the property and never generated", "reference MurmurHash3 (C16) for the model table"],
+            components_real: vec!["CountMinSketch<T>: update_with_weight, estimate, bounds, total_weight, merge, halve, decay, serialize/deserialize on wire paths"],
+            components_stub: vec!["exactly-once network", "epoch broadcaster", "exact truth map and model table (oracle)"],
+        },
+        "C09" => PropSpec {
+            id: "C09",
+            level: "exploration",
+            parts: vec![p("c09_bloom", REL, BOTH)],
+            rule: "one run = one filter shape (1..=2^16 requested bits incl. non-multiples of 64, num_hashes 1..=16, seed) and 2-4 nodes; a script of insert / contains_and_insert bursts, unions (in memory or serialize() image over an at-least-once network with reorder, duplicate delivery, loss), intersect epochs (operand in memory or through serialize/deserialize), invert, reset, foreign images carrying the dirty bit-count marker, and occasional with_accuracy(n,p) probes. After every insert bits_used == model popcount and capacity == bits rounded up to 64; after every set operation / delivery / Check / quiescence the serialized bit array equals the model array built with reference XXH64 double hashing, every member (inserted directly or into a union operand; intersection of member sets after intersect) is contained - also after a serialize/deserialize round trip - contains() agrees with the reference positions on 16 never-inserted probes, contains_and_insert returns the prior membership by bits. False-positive rate of with_accuracy filters is counted per batch. Non-trivial = a wire delivery happened; distinct = distinct (num_hashes, word alignment, fault kinds) keys.",
+            assumptions: vec!["reference XXH64 (C16) for the model bit positions", "after invert no membership promise is carried over (the model member set is cleared)"],
+            components_real: vec!["BloomFilter insert / contains / contains_and_insert / union / intersect / invert / reset / bits_used / capacity / is_compatible, BloomFilterBuilder::with_size / with_accuracy, serialize / deserialize"],
+            components_stub: vec!["at-least-once network", "ForeignWriter (independent Bloom encoder, dirty marker)", "member set + model bit vector (oracle)"],
+        },
         _ => return None,
     })
 }
@@ -116,4 +134,54 @@ pub fn profiles(part: &Part, tier: Tier) -> &'static [&'static str] {
         Tier::Quick => part.quick,
         Tier::Thorough => part.thorough,
     }
+}
+
+/// Batch-level (statistical) clauses, evaluated over the aggregated counters of a whole batch.
+/// One-sided, with a margin that bounds the false-alarm probability by 1e-9 under the documented rate.
+pub fn batch_check(prop: &str, agg: &crate::core::Agg) -> Vec<crate::core::Violation> {
+    let mut out = vec![];
+    let l = (1e9f64).ln();
+    match prop {
+        "C08" => {
+            for h in 1..=16u32 {
+                let n = agg.probes.get(&format!("conf_trials_h{h}")).copied().unwrap_or(0) as f64;
+                if n == 0.0 {
+                    continue;
+                }
+                let x = agg.probes.get(&format!("conf_exceed_h{h}")).copied().unwrap_or(0) as f64;
+                let sq = agg.probes.get(&format!("conf_trials_sq_h{h}")).copied().unwrap_or(0) as f64;
+                let p = (-(h as f64)).exp();
+                // Hoeffding over runs (trials inside one run share a table and are not independent)
+                let t = (l * sq.max(n) / 2.0).sqrt();
+                if x > n * p + t {
+                    out.push(crate::core::Violation::new(
+                        format!("C08.confidence_h{h}"),
+                        format!("num_hashes {h}: {x} of {n} (item,node) pairs have estimate > truth + relative_error*total; documented rate e^-{h} = {p:.4} allows {:.0} + margin {:.0}", n * p, t),
+                    ));
+                }
+            }
+        }
+        "C09" => {
+            for e in 1..=3u32 {
+                let n = agg.probes.get(&format!("fpp_trials_p1e-{e}")).copied().unwrap_or(0) as f64;
+                if n == 0.0 {
+                    continue;
+                }
+                let x = agg.probes.get(&format!("fpp_false_positives_p1e-{e}")).copied().unwrap_or(0) as f64;
+                let p = 10f64.powi(-(e as i32));
+                // probes are hashed independently: given the filters the trials are independent
+                // Bernoulli draws, so Bernstein's inequality with variance <= n * 1.5p applies
+                let v = n * 1.5 * p;
+                let t = l / 3.0 + (l * l / 9.0 + 2.0 * v * l).sqrt();
+                if x > 1.5 * p * n + t {
+                    out.push(crate::core::Violation::new(
+                        format!("C09.fpp_p1e-{e}"),
+                        format!("with_accuracy(n, 1e-{e}) filters loaded with n items: {x} false positives in {n} fresh probes; 1.5*p allows {:.0} + margin {:.0}", 1.5 * p * n, t),
+                    ));
+                }
+            }
+        }
+        _ => {}
+    }
+    out
 }
